@@ -223,7 +223,8 @@ fn judge(state: &str, o: &CaseOut) -> Vec<(String, String)> {
             }
         } else {
             // unwritable destination: must be reported as Err
-            if cs != "Err" {
+            // an empty text writes no byte, so /dev/full has nothing to refuse
+            if cs != "Err" && !(state == "file:/dev/full" && text.is_empty()) {
                 v.push(("unwritable-destination-not-reported".into(), format!("destination `{state}` cannot be written but compile() returned {cs}")));
             }
         }
